@@ -184,7 +184,15 @@ def gen_disk(rng):
                     pn = nm + ("p" if nm[-1].isdigit() else "") + str(k)
                     devs.append(dict(name=pn, whole=False, parent=nm, major=major, minor=minor - 16 + len(used),
                                      v=_distinct(rng, 17)))
-    return dict(mode=mode, era=era, devs=devs)
+    out = dict(mode=mode, era=era, devs=devs)
+    if mode == "procfs" and rng.random() < 0.2:
+        # /sys/block knows devices the procfs psutil was told to read does not list (PROCFS_PATH names a container's or
+        # another host's procfs): only what diskstats lists is reported
+        taken = {d["name"] for d in devs}
+        out["ghosts"] = [dict(name=nm, whole=True, major=254, minor=16 * i, v=_distinct(rng, 17))
+                         for i, nm in enumerate(rng.sample(["vdz", "nvme9n1", "sdzz", "md127"], rng.choice([1, 2])))
+                         if nm not in taken]
+    return out
 
 
 def render_diskstats(disk):
@@ -348,6 +356,13 @@ def build_sysblock(env, disk):
                 os.mkdir(os.path.join(dd, sub))
             with open(os.path.join(dd, "queue", "rotational"), "wb") as f:
                 f.write(b"0\n")
+    for d in disk.get("ghosts", ()):
+        dd = os.path.join(root, d["name"])
+        os.makedirs(os.path.join(dd, "queue"))
+        for fn, data in (("stat", render_sysfs_stat(disk if disk["era"] not in ("k26p", "k24") else dict(disk, era="k26"), d)),
+                         ("size", b"1953525168\n"), ("queue/hw_sector_size", b"512\n"), ("queue/rotational", b"0\n")):
+            with open(os.path.join(dd, fn), "wb") as f:
+                f.write(data)
     if disk["mode"] == "sysfs":
         for d in disk["devs"]:
             if d["whole"]:
